@@ -7,6 +7,8 @@ def main(tier):
     run = PropertyRun('C19', tier, level='other')
     for cls in I.ENCODERS:
         run.add(I.SendTask('C19', cls))
+    from pyvc.tasks import LemmaTask
+    run.add(LemmaTask('C19:lock-identity', I.lock_identity_lemmas('C19')))
     from props import C19_extra
     C19_extra.add(run, tier)
     return run.execute()
